@@ -13,10 +13,12 @@ package an
 
 import (
 	"bytes"
+	"fmt"
 	"go/ast"
 	"go/printer"
 	"go/token"
 	"go/types"
+	"hash/fnv"
 	"strings"
 
 	"golang.org/x/tools/go/packages"
@@ -32,6 +34,69 @@ var ModPath = "github.com/grafana/dskit"
 var Renamed []string
 
 var renamedObj = map[*types.Func]string{} // new function -> pinned display name
+
+// PinnedName is the exported form of pinnedBareName for objects of any kind.
+func PinnedName(o types.Object) string {
+	if f, ok := o.(*types.Func); ok {
+		return pinnedBareName(f)
+	}
+	if o == nil {
+		return ""
+	}
+	return o.Name()
+}
+
+// pinnedBareName: the function's name as rules know it (the pinned one when it was renamed).
+func pinnedBareName(f *types.Func) string {
+	if old, ok := renamedObj[f]; ok {
+		if i := strings.LastIndex(old, "."); i >= 0 {
+			return old[i+1:]
+		}
+		return old
+	}
+	return f.Name()
+}
+
+// ShapeHash renders the structure of a function body without any identifier: node kinds, operators
+// and basic literals. Two functions that differ only by renamings have the same shape; it separates
+// several renamed functions of one receiver that share a signature.
+func ShapeHash(body *ast.BlockStmt) string {
+	if body == nil {
+		return ""
+	}
+	var b strings.Builder
+	ast.Inspect(body, func(n ast.Node) bool {
+		switch x := n.(type) {
+		case nil:
+			b.WriteString(")")
+			return true
+		case *ast.Ident:
+			b.WriteString("i")
+		case *ast.BasicLit:
+			b.WriteString(x.Value)
+		case *ast.BinaryExpr:
+			b.WriteString(x.Op.String())
+		case *ast.UnaryExpr:
+			b.WriteString(x.Op.String())
+		case *ast.AssignStmt:
+			b.WriteString(x.Tok.String())
+		case *ast.IncDecStmt:
+			b.WriteString(x.Tok.String())
+		case *ast.BranchStmt:
+			b.WriteString(x.Tok.String())
+		case *ast.CommentGroup, *ast.Comment:
+			return false
+		default:
+			t := strings.TrimPrefix(fmt.Sprintf("%T", n), "*ast.")
+			b.WriteString(t)
+		}
+		b.WriteString("(")
+		return true
+	})
+	h := fnv.New64a()
+	h.Write([]byte(b.String()))
+	return fmt.Sprintf("%x", h.Sum64())
+}
 
 // SigText renders the parameter and result types of a function type (names dropped).
 func SigText(ft *ast.FuncType) string {
@@ -121,7 +186,7 @@ func applyRenames(pkg *packages.Package, fns []*Fn) {
 		return
 	}
 	// pinned functions of this package that are gone
-	type miss struct{ key, recv, name, sig string }
+	type miss struct{ key, recv, name, sig, shape string }
 	var missing []miss
 	for k, sig := range Pinned {
 		if !strings.HasPrefix(k, dir+":") || present[k] {
@@ -132,7 +197,11 @@ func applyRenames(pkg *packages.Package, fns []*Fn) {
 		if i := strings.Index(rest, "."); i >= 0 {
 			recv, name = rest[:i], rest[i+1:]
 		}
-		missing = append(missing, miss{k, recv, name, sig})
+		shape := ""
+		if i := strings.LastIndex(sig, "#"); i >= 0 {
+			sig, shape = sig[:i], sig[i+1:]
+		}
+		missing = append(missing, miss{k, recv, name, sig, shape})
 	}
 	for _, m := range missing {
 		var cands []*Fn
@@ -141,18 +210,30 @@ func applyRenames(pkg *packages.Package, fns []*Fn) {
 				cands = append(cands, f)
 			}
 		}
-		if len(cands) != 1 {
-			continue
-		}
-		// no other missing function may compete for the same candidate
 		rivals := 0
 		for _, m2 := range missing {
 			if m2.recv == m.recv && m2.sig == m.sig {
 				rivals++
 			}
 		}
-		if rivals != 1 {
-			continue
+		if len(cands) != 1 || rivals != 1 {
+			// several renamed functions share receiver and signature: tell them apart by the shape of their bodies
+			var byShape []*Fn
+			for _, f := range cands {
+				if m.shape != "" && ShapeHash(f.Decl.Body) == m.shape {
+					byShape = append(byShape, f)
+				}
+			}
+			shapeRivals := 0
+			for _, m2 := range missing {
+				if m2.recv == m.recv && m2.sig == m.sig && m2.shape == m.shape {
+					shapeRivals++
+				}
+			}
+			if len(byShape) != 1 || shapeRivals != 1 {
+				continue
+			}
+			cands = byShape
 		}
 		f := cands[0]
 		newName := f.Name
